@@ -44,6 +44,7 @@ ScaledFails(p, st) ==
    IF ~st.hasInternal THEN {} ELSE
    LET n == st.internal IN
    IF Len(n.rexp) # NR(p) \/ Len(n.cexp) # NC(p) \/ Len(n.rows) # NR(p) THEN {"Scaled:Shape"} ELSE
+   IF (\E i \in 1..Len(n.rexp) : n.rexp[i] < -1100 \/ n.rexp[i] > 1100) \/ (\E j \in 1..Len(n.cexp) : n.cexp[j] < -1100 \/ n.cexp[j] > 1100) THEN {"Scaled:ExponentRange"} ELSE
    Fail("Scaled:Matrix", \A i \in 1..NR(p) : n.rows[i] = [k \in 1..Len(p.rows[i]) |-> <<p.rows[i][k][1], BRMulPow2(p.rows[i][k][2], n.rexp[i] + n.cexp[p.rows[i][k][1] + 1])>>])
    \cup Fail("Scaled:Lhs", n.lhs = [i \in 1..NR(p) |-> ScaleNum(p.lhs[i], n.rexp[i])])
    \cup Fail("Scaled:Rhs", n.rhs = [i \in 1..NR(p) |-> ScaleNum(p.rhs[i], n.rexp[i])])
